@@ -16,7 +16,7 @@ SubLayout(k) ==
   LayoutD(<<GoodSig(k)>>, 1000, <<"k3">>,
           <<StepD("in1", <<"k3">>, 1, << >>, <<Simple("CREATE", PA)>>)>>, << >>)
 
-FileStates == {"absent", "valid", "other", "flipped", "tampered", "misfiled", "multi",
+FileStates == {"absent", "valid", "other", "flipped", "tampered", "requoted", "misfiled", "multi",
                "badplusother", "sublayout", "garbage"}
 StatesFor(k) == IF k = "kx" THEN {"absent", "valid"}
                 ELSE IF Tier = "quick" THEN FileStates \ {"garbage"} ELSE FileStates
@@ -27,6 +27,8 @@ Entries(k, st) ==
     [] st = "other"     -> <<Entry(<< >>, "s1", k, S1Link(<<Relabel(k, Other(k))>>))>>
     [] st = "flipped"   -> <<Entry(<< >>, "s1", k, S1Link(<<BadSig(k)>>))>>
     [] st = "tampered"  -> <<Entry(<< >>, "s1", k, [S1Link(<<GoodSig(k)>>) EXCEPT !.edit = "product"])>>
+    \* altered so that only string quoting tells the signed from the shipped content
+    [] st = "requoted"  -> <<Entry(<< >>, "s1", k, [S1Link(<<GoodSig(k)>>) EXCEPT !.edit = "cmd_requote"])>>
     [] st = "misfiled"  -> <<Entry(<< >>, "s1", k, S1Link(<<GoodSig(Other(k))>>))>>
     [] st = "multi"     -> <<Entry(<< >>, "s1", k, S1Link(<<GoodSig(Other(k)), GoodSig(k)>>))>>
     \* the named key's own signature does not verify, a co-functionary's does
